@@ -7,6 +7,7 @@ import (
 	"go/parser"
 	"go/printer"
 	"go/token"
+	"go/types"
 	"os"
 	"path/filepath"
 	"regexp"
@@ -229,6 +230,21 @@ func (p *Parser) Parse() ([]*model.MethodsInfo, error) {
 		}
 		list = append(list, info)
 		allMethods = append(allMethods, methods...)
+	}
+
+	// Two methods that end up as the same function cannot both be generated: a converter
+	// interface that embeds another converter interface contributes the embedded methods a
+	// second time, and two interfaces may declare a method of the same name.
+	generated := make(map[string]bool)
+	for _, method := range allMethods {
+		key := method.Name()
+		if src := method.SrcVar(); method.Opts.Receiver != "" && src != nil {
+			key = types.TypeString(util.DerefPtr(src.Type()), nil) + "." + key
+		}
+		if generated[key] {
+			return nil, logger.Errorf("%v: function %v would be generated more than once", p.fset.Position(method.Method.Pos()), method.Name())
+		}
+		generated[key] = true
 	}
 
 	// Resolve converters.
